@@ -13,6 +13,8 @@ def import_rules(ctx, r, prop, only=None, prefix=True):
         cache[prop] = sub
     sub = cache[prop]
     n = 0
+    if any(rr.min_instances <= 1 for rr in sub.rules if only is None or rr.id.split(".", 1)[1] in only):
+        r.min_instances = min(r.min_instances, 1)  # the imported rule was decided by its witness evaluation (fewer, coarser instances)
     for rr in sub.rules:
         rid = rr.id.split(".", 1)[1]
         if only is not None and rid not in only:
